@@ -368,4 +368,40 @@ example : Spec.jBadDoc 1 (.obj [(L "<class>", .str (L "root")), (L "elements", .
       .obj [(L "direction", .str (L "out")), (L "signature", .obj [(L "type_name", .obj [(L "ids", .arr [
         .str (L "bool")])])])]])])]])]) = true := by decide
 
+/-! ### fuel: looking deeper never finds less (the monitor's fuel covers every shallower nesting) -/
+
+theorem jBadElem_mono (f g : List JVal → Bool) (h : ∀ l, f l = true → g l = true) (j : JVal)
+    (hb : Spec.jBadElem f j = true) : Spec.jBadElem g j = true := by
+  cases j with
+  | obj kvs =>
+    simp only [Spec.jBadElem] at hb ⊢
+    cases hc : lookup (L "<class>") kvs with
+    | none => simp [hc] at hb
+    | some cls =>
+      simp only [hc] at hb ⊢
+      by_cases hn : cls.eqStr (L "namespace") = true
+      · simp only [hn, if_true] at hb ⊢
+        cases he : lookup (L "elements") kvs with
+        | none => simp [he] at hb
+        | some v =>
+          cases v <;> simp [he] at hb ⊢
+          exact h _ hb
+      · simp only [hn] at hb ⊢
+        exact hb
+  | _ => simp [Spec.jBadElem] at hb
+
+/-- more fuel never finds less: what is found looking `n` namespaces deep is found looking deeper -/
+theorem jBadElems_mono : ∀ (n : Nat) (l : List JVal), Spec.jBadElems n l = true → Spec.jBadElems (n + 1) l = true
+  | 0, l, h => by simp [Spec.jBadElems] at h
+  | n + 1, l, h => by
+    simp only [Spec.jBadElems, List.any_eq_true] at h ⊢
+    obtain ⟨j, hj, hb⟩ := h
+    exact ⟨j, hj, jBadElem_mono _ _ (fun l' h' => jBadElems_mono n l' h') j hb⟩
+
+theorem jBadElems_le (n m : Nat) (h : n ≤ m) (l : List JVal) (hb : Spec.jBadElems n l = true) :
+    Spec.jBadElems m l = true := by
+  induction h with
+  | refl => exact hb
+  | step _ ih => exact jBadElems_mono _ l ih
+
 end C15
